@@ -9,3 +9,5 @@ pub mod uf;
 pub mod stubs;
 #[cfg(kani)]
 mod c01_programs;
+#[cfg(kani)]
+mod c16_zbsdiff;
